@@ -63,6 +63,7 @@ def run(ctx):
         ctx.guard("mapping-iter" + tag, c19.iter_protocol, ctx, crate, crs, e19, tag)
         ctx.guard("mapping-serde" + tag, c19.serde_shape, ctx, crate, crs, e19, tag)
         ctx.guard("mapping-bounds" + tag, c19.bounds, ctx, crate, crs, c19.mapping_bodies(crate), e19, tag)
+        ctx.guard("mapping-bookkeeping" + tag, c19.bookkeeping, ctx, crate, crs, e19, tag)     # `max` bounds serialisation and fresh version-set ids
 
 
 # ---------------------------------------------------------------------------------------------
